@@ -201,3 +201,47 @@ def run(ctx, facts):
     ctx.floor("C12 seeding site arguments", ns, 17)
     nk = ctor_types(ctx, facts)
     ctx.floor("C12 constructors taking a hasher", nk, 4)
+
+
+def thorough(ctx, src):
+    """WITNESS: compile_fail doc-tests with compiling twins, run by cargo +nightly test --doc against the analysed tree"""
+    import os
+    import re as _re
+    import shutil
+    import subprocess
+    from ..engine import VERIF, WORK, REPO, AnalysisError
+    src = src or REPO
+    wdir = os.path.join(WORK, "witness")
+    os.makedirs(os.path.join(wdir, "src"), exist_ok=True)
+    shutil.copy2(os.path.join(VERIF, "witness", "src", "lib.rs"), os.path.join(wdir, "src", "lib.rs"))
+    toml = open(os.path.join(VERIF, "witness", "Cargo.toml.in")).read().replace("@SRC@", src)
+    open(os.path.join(wdir, "Cargo.toml"), "w").write(toml)
+    lock = os.path.join(src, "Cargo.lock")
+    if os.path.exists(lock):
+        shutil.copy2(lock, os.path.join(wdir, "Cargo.lock"))
+    env = dict(os.environ, CARGO_NET_OFFLINE="true", CARGO_TARGET_DIR=os.path.join(WORK, "witness-target"))
+    r = subprocess.run(["cargo", "+nightly", "test", "--doc", "--offline"], cwd=wdir, env=env, capture_output=True, text=True)
+    out = r.stdout + r.stderr
+    results = _re.findall(r"test src/lib.rs - (\w+) \(line (\d+)\)( - compile fail)? \.\.\. (\w+)", out)
+    ctx.rule("WITNESS", "compile_fail,E0308 doc-tests: passing a RandomState where the constructors take BuildHasherDefault<H> must not "
+                        "type-check; each witness has a compiling twin differing only in that argument")
+    if not results:
+        raise AnalysisError("witness doc-tests did not run: " + out[-1500:])
+    nf_, ntw = 0, 0
+    for (name, line, cf_, res) in results:
+        if cf_:
+            nf_ += 1
+            if res == "ok":
+                ctx.ok("WITNESS", name, "RandomState rejected with E0308 (compile_fail witness, line %s)" % line, "witness/src/lib.rs:%s" % line)
+            else:
+                ctx.violation("WITNESS", name, "keyed hasher accepted", "witness/src/lib.rs:%s" % line,
+                              "the constructor accepts a RandomState (the compile_fail witness compiled or failed with another error): a keyed hasher can be injected")
+        else:
+            ntw += 1
+            if res == "ok":
+                ctx.ok("WITNESS", name, "twin with BuildHasherDefault compiles (line %s)" % line, "witness/src/lib.rs:%s" % line)
+            else:
+                raise AnalysisError("the compiling twin of witness %s does not compile, so its compile_fail result means nothing: %s" % (name, out[-1200:]))
+    ctx.extra["witness"] = {"compile_fail_witnesses": nf_, "twins": ntw}
+    if nf_ < 4 or ntw < 4:
+        raise AnalysisError("expected 4 witnesses and 4 twins, ran %d / %d" % (nf_, ntw))
